@@ -36,6 +36,9 @@ def main():
         pid = sd.split('-')[0]
         props = [p for p in RELATED.get(sd, [pid]) if p in propmap.PROPS]
         patch = os.path.join(ROOT, 'seeded', sd, 'patch.diff')
+        if os.path.exists(os.path.join(ROOT, 'seeded', sd, 'patch.rebased.diff')):
+            # the same change re-expressed on the current /repo HEAD (a later fix: commit touched the same lines)
+            patch = os.path.join(ROOT, 'seeded', sd, 'patch.rebased.diff')
         rc, out = sh('git apply %s' % patch, '/repo')
         res = {}
         if rc != 0:
